@@ -315,9 +315,9 @@ func init() {
 	const perColl, perStore = 12, 6
 	ck.Run = func(c *run.Ctx) *run.ShardResult {
 		sr := run.NewShardResult()
-		n := 1600
+		n := 3200
 		if c.Thorough() {
-			n = 32000
+			n = 48000
 		}
 		for idx := 0; idx < n; idx++ {
 			if !c.Mine(idx) {
